@@ -43,7 +43,7 @@ func execLimits() (maxExecMs, stallMs int) {
 
 func profile(max int) sh.Profile {
 	maxExecMs, stallMs := execLimits()
-	return sh.Profile{MinCmds: 8, MaxCmds: max, KeepSession: 2, Faults: true, RefuseFaults: true, Disconnects: true, HardDrops: true, Ping: true,
+	return sh.Profile{MinCmds: 8, MaxCmds: max, KeepSession: 2, Faults: true, RefuseFaults: true, Disconnects: true, HardDrops: true, Ping: true, Streamed: true,
 		MaxExecMs: maxExecMs, StallMs: stallMs}
 }
 
@@ -207,6 +207,9 @@ func analyse(c sh.Case, tr *sh.Trace) *analysis {
 		s := st.Cmd.S
 		m := ms[s]
 		inTxBefore := m.maybe || m.ac0
+		if m.ac0 && !m.maybe && st.Err != nil && strings.Contains(st.Err.Message, "execution timed out, sql: ") {
+			lab["autocommit0_statement_timed_out"] = true
+		}
 		if st.FaultFired {
 			lab["fault_"+st.Cmd.F.On+"_"+st.Cmd.F.Action] = true
 			if st.Cmd.F.On == sh.OnConnect && sh.IsSharded(st.Cmd.K) && c.Slices >= 2 {
@@ -856,6 +859,72 @@ func TestC19Acquire(t *testing.T) {
 	}
 	pbt.RunWith(t, pbt.Spec{ID: "C19", Sub: "acquire", Quick: 100, Thorough: 600, Rule: ruleAcquire, Floor: 0.25}, genAcquire,
 		func(c sh.Case, rec *pbt.Recorder) pbt.Outcome { o := checkAcquire(c); reportTiming(rec); return o })
+}
+
+// ---- autocommit=0 without BEGIN, connection closed under the implicit transaction ----
+
+// genAc0 draws short histories around one pattern: SET autocommit=0 (no BEGIN), statements, an unsharded statement
+// whose connection the proxy closes (stall past max_sql_execute_time, mostly) or that the backend drops, then
+// ROLLBACK / COMMIT / SET autocommit=1 / disconnect, then a little more traffic.
+func genAc0(t *rapid.T) sh.Case {
+	maxExecMs, stallMs := execLimits()
+	c := sh.Case{MaxExecMs: maxExecMs, StallMs: stallMs}
+	c.Slices = rapid.IntRange(1, 3).Draw(t, "slices")
+	c.Replicas = rapid.IntRange(0, 1).Draw(t, "replicas")
+	c.Cap = rapid.IntRange(1, 2).Draw(t, "cap")
+	c.MaxCap = c.Cap + 3
+	c.KeepSession = rapid.IntRange(0, 4).Draw(t, "ks") == 0
+	c.RWSplit = []bool{rapid.Bool().Draw(t, "rwsplit"), false}
+	stmt := func(name string, sess int) sh.Cmd {
+		k := rapid.SampledFrom([]string{sh.KURead, sh.KUWrite, sh.KUForUpdate, sh.KSRead, sh.KSWrite}).Draw(t, name)
+		cmd := sh.Cmd{S: sess, K: k, N: rapid.IntRange(0, 7).Draw(t, name+"_n")}
+		if sh.IsSharded(k) {
+			cmd.Keys = []int{rapid.IntRange(0, 8).Draw(t, name+"_k1"), rapid.IntRange(0, 8).Draw(t, name+"_k2")}
+		}
+		return cmd
+	}
+	for i := rapid.IntRange(0, 2).Draw(t, "prelude"); i > 0; i-- {
+		c.Cmds = append(c.Cmds, stmt("pre", rapid.IntRange(0, 1).Draw(t, "pre_s")))
+	}
+	c.Cmds = append(c.Cmds, sh.Cmd{S: 0, K: sh.KAc0})
+	for i := rapid.IntRange(0, 2).Draw(t, "before"); i > 0; i-- {
+		c.Cmds = append(c.Cmds, stmt("before", 0))
+	}
+	victim := sh.Cmd{S: 0, K: rapid.SampledFrom([]string{sh.KURead, sh.KUWrite, sh.KUForUpdate}).Draw(t, "victim")}
+	victim.F = &sh.Fault{On: sh.OnStmt, Slice: 0, Action: rapid.SampledFrom([]string{sh.ActStall, sh.ActStall, sh.ActStall, sh.ActCloseBefore, sh.ActCloseAfter}).Draw(t, "victim_fault")}
+	if rapid.IntRange(0, 4).Draw(t, "victim_on") == 0 {
+		victim.F.On = sh.OnInitDB
+	}
+	c.Cmds = append(c.Cmds, victim)
+	for i := rapid.IntRange(0, 2).Draw(t, "between"); i > 0; i-- {
+		c.Cmds = append(c.Cmds, stmt("between", rapid.SampledFrom([]int{0, 0, 1}).Draw(t, "between_s")))
+	}
+	c.Cmds = append(c.Cmds, sh.Cmd{S: 0, K: rapid.SampledFrom([]string{sh.KRollback, sh.KRollback, sh.KCommit, sh.KCommit, sh.KAc1, sh.KQuit, sh.KDrop}).Draw(t, "end")})
+	for i := rapid.IntRange(0, 2).Draw(t, "after"); i > 0; i-- {
+		c.Cmds = append(c.Cmds, stmt("after", rapid.IntRange(0, 1).Draw(t, "after_s")))
+	}
+	return c
+}
+
+func checkAc0(c sh.Case) pbt.Outcome {
+	o := checkCase(c)
+	o.NonTrivial = false
+	for _, l := range o.Labels {
+		if l == "autocommit0_statement_timed_out" {
+			o.NonTrivial = true
+		}
+	}
+	return o
+}
+
+const ruleAc0 = "1-2 sessions, 1-3 slices, keep-session mostly off: optional statements, SET autocommit=0 without BEGIN, 0-2 statements, an unsharded statement that stalls past max_sql_execute_time (3 in 5) or whose socket the backend closes, 0-2 statements, then ROLLBACK / COMMIT / SET autocommit=1 / COM_QUIT / FIN, then 0-2 statements; non-trivial = the statement under autocommit=0 really timed out. Same ledger oracle (per-command bounds; at the end InUse()==0 and Available()==Capacity())."
+
+func TestC19Autocommit0(t *testing.T) {
+	if _, err := proxyfix.Shared(); err != nil {
+		t.Fatalf("fixture: the shared proxy did not start: %v", err) // inconclusive, not a violation
+	}
+	pbt.RunWith(t, pbt.Spec{ID: "C19", Sub: "autocommit0", Quick: 60, Thorough: 300, Rule: ruleAc0, Floor: 0.3}, genAc0,
+		func(c sh.Case, rec *pbt.Recorder) pbt.Outcome { o := checkAc0(c); reportTiming(rec); return o })
 }
 
 const rule = "C18's command machine (1-3 sessions, 1-3 slices, keep-session on in a third) plus disconnects (COM_QUIT, FIN, FIN with a statement in flight, RST) and a fault per command with probability 0.3: SQL error / socket closed before or after the reply / stall past max_sql_execute_time (120 ms quick, 300 ms thorough) on the tagged statement, BEGIN, COMMIT, ROLLBACK, SET autocommit, the session-variable SET, COM_INIT_DB or a keep-session ping, on a slice the command touches; non-trivial = a fault fired inside an open transaction that holds another slice (or two), or during a keep-session statement"
